@@ -162,14 +162,11 @@ impl vstd::std_specs::cmp::PartialEqSpecImpl for Cursor {
         Fn('new', props=P4, ret='r', ensures=[('fields', 'r.begin == begin && r.end == end')]),
         Fn('simple', props=P4, ret='r', ensures=[('fields', 'r.begin == Cursor::BeginAligned(begin) && r.end == Cursor::BeginAligned(end)')]),
         Fn('whole', props=P4, ret='r', ensures=[('fields', 'r.begin == Cursor::BeginAligned(0) && r.end == Cursor::EndAligned(0)')]),
-        Fn('len', props=P4, ret='r',
-           requires=[('ordered', '''match (self.begin, self.end) {
-                (Cursor::BeginAligned(b), Cursor::BeginAligned(e)) => b <= e,
-                (Cursor::EndAligned(b), Cursor::EndAligned(e)) => b <= 0 && e <= 0 && b != isize::MIN && e != isize::MIN,
-                _ => true }''')],
+        # total: an offset that denotes no range (end before begin, end-aligned cursor above zero, mixed alignment) has no length
+        Fn('len', props=P4 + ['C19'], ret='r',
            ensures=[('value', '''match (self.begin, self.end) {
-                (Cursor::BeginAligned(b), Cursor::BeginAligned(e)) => r == Some((e - b) as usize),
-                (Cursor::EndAligned(b), Cursor::EndAligned(e)) => r == Some((if e >= b { e - b } else { b - e }) as usize),
+                (Cursor::BeginAligned(b), Cursor::BeginAligned(e)) => r == (if b <= e { Some((e - b) as usize) } else { None }),
+                (Cursor::EndAligned(b), Cursor::EndAligned(e)) => r == (if b <= e && e <= 0 { Some((e - b) as usize) } else { None }),
                 _ => r is None }''')]),
     ])
     u.impl('src/selector.rs', 'impl From<&Offset> for OffsetMode', [
@@ -193,10 +190,10 @@ impl vstd::std_specs::cmp::PartialEqSpecImpl for Cursor {
         Fn('beginaligned_cursor', props=P, ret='r',
            ensures=[(l, t.replace('LEN', 'self.tlen()')) for l, t in BAC_ENS]),
         Fn('absolute_offset', props=P4, ret='r',
-           requires=[('fits', 'self.base() + self.tlen() <= usize::MAX'),
-                     ('begin_fits', 'offset.begin is BeginAligned ==> self.base() + offset.begin->BeginAligned_0 <= usize::MAX'),
-                     ('end_fits', 'offset.end is BeginAligned ==> self.base() + offset.end->BeginAligned_0 <= usize::MAX')],
-           ensures=[('ok_iff', 'r is Ok <==> (abs_pos(offset.begin, self.tlen() as int) is Some && abs_pos(offset.end, self.tlen() as int) is Some)'),
+           requires=[('fits', 'self.base() + self.tlen() <= usize::MAX')],
+           # from the property (C04): accepted exactly when the offset denotes a range inside this text, and then the result is
+           # that range in absolute coordinates
+           ensures=[('accept_iff', 'r is Ok <==> accept(*offset, self.tlen() as int)'),
                     ('value', 'r is Ok ==> r->Ok_0.begin == Cursor::BeginAligned((self.base() + abs_pos(offset.begin, self.tlen() as int).unwrap()) as usize) && r->Ok_0.end == Cursor::BeginAligned((self.base() + abs_pos(offset.end, self.tlen() as int).unwrap()) as usize)')]),
     ], extra=TEXT_GHOST)
 
@@ -214,15 +211,18 @@ pub open spec fn embeds_sel(c: TextSelection, t: TextSelection) -> bool { c.begi
     u.impl(F, 'impl TextSelection', [
         Fn('begin', props=P, ret='r', ensures=[('begin', 'r == self.begin')]),
         Fn('end', props=P, ret='r', ensures=[('end', 'r == self.end')]),
+        Fn('is_embedded_in', props=P4, ret='r', ensures=[('embedded', 'r == embeds_sel(*container, *self)')], optional=True),
+        # from the documentation of the four helpers ("None if they are not embedded") and the property: a cursor is only
+        # reported for a selection that lies inside the container
         Fn('relative_begin', props=P4, ret='r',
-           ensures=[('value', 'r == (if self.begin >= container.begin { Some((self.begin - container.begin) as usize) } else { None })')]),
-        Fn('relative_end', props=P4, ret='r',
-           ensures=[('value', 'r == (if container.begin <= self.end <= container.end { Some((self.end - container.begin) as usize) } else { None })')]),
+           ensures=[('value', 'r == (if embeds_sel(*container, *self) { Some((self.begin - container.begin) as usize) } else { None })')]),
+        Fn('relative_end', props=P4, ret='r', requires=[('wf_self', 'wf_sel(*self)')],
+           ensures=[('value', 'r == (if embeds_sel(*container, *self) { Some((self.end - container.begin) as usize) } else { None })')]),
         Fn('relative_begin_endaligned', props=P4, ret='r', requires=[CLEN_OK, ('self_fits', 'self.begin <= isize::MAX as usize')],
-           ensures=[('some_iff', 'r is Some <==> self.begin >= container.begin'),
+           ensures=[('some_iff', 'r is Some <==> embeds_sel(*container, *self)'),
                     ('value', 'r is Some ==> r.unwrap() == (self.begin - container.begin) - (container.end - container.begin)')]),
-        Fn('relative_end_endaligned', props=P4, ret='r', requires=[CLEN_OK],
-           ensures=[('some_iff', 'r is Some <==> container.begin <= self.end <= container.end'),
+        Fn('relative_end_endaligned', props=P4, ret='r', requires=[CLEN_OK, ('wf_self', 'wf_sel(*self)')],
+           ensures=[('some_iff', 'r is Some <==> embeds_sel(*container, *self)'),
                     ('value', 'r is Some ==> r.unwrap() == (self.end - container.begin) - (container.end - container.begin)'),
                     ('nonpositive', 'r is Some ==> r.unwrap() <= 0')]),
         Fn('relative_offset', props=P4, ret='r', requires=[CLEN_OK, ('wf_self', 'wf_sel(*self)'), ('self_fits', 'self.end <= isize::MAX as usize')],
@@ -232,10 +232,8 @@ pub open spec fn embeds_sel(c: TextSelection, t: TextSelection) -> bool { c.begi
                     ('accepted', 'r is Some ==> accept(r.unwrap(), container.end - container.begin)'),
                     ('re_resolves', 'r is Some ==> resolve_in(r.unwrap(), *container) == (self.begin as int, self.end as int)')]),
         Fn('absolute_offset', props=P, ret='r',
-           requires=[('wf_self', 'wf_sel(*self)'),
-                     ('begin_fits', 'offset.begin is BeginAligned ==> self.begin + offset.begin->BeginAligned_0 <= usize::MAX'),
-                     ('end_fits', 'offset.end is BeginAligned ==> self.begin + offset.end->BeginAligned_0 <= usize::MAX')],
-           ensures=[('ok_iff', f'r is Ok <==> (abs_pos(offset.begin, {SLEN}) is Some && abs_pos(offset.end, {SLEN}) is Some)'),
+           requires=[('wf_self', 'wf_sel(*self)')],
+           ensures=[('accept_iff', f'r is Ok <==> accept(*offset, {SLEN})'),
                     ('value', f'r is Ok ==> r->Ok_0.begin == Cursor::BeginAligned((self.begin + abs_pos(offset.begin, {SLEN}).unwrap()) as usize) && r->Ok_0.end == Cursor::BeginAligned((self.begin + abs_pos(offset.end, {SLEN}).unwrap()) as usize)')]),
         Fn('beginaligned_cursor', props=P, ret='r', requires=[('wf_self', 'wf_sel(*self)')],
            ensures=[(l, t.replace('LEN', SLEN)) for l, t in BAC_ENS]),
